@@ -55,11 +55,25 @@ def digit_string_vs_int(a, b) -> bool:
     return False
 
 
+def attr_name_members(case):
+    """does the input carry a member named like the Python ATTRIBUTE of an aliased field of its class?
+    -> None | "both" (the alias member is present too) | "only" """
+    S = schema_h.schema()
+    c = S.get(case.get("cls"))
+    w = case.get("wire")
+    if c is None or not isinstance(w, dict):
+        return None
+    res = None
+    for f in c["fields"]:
+        if f["alias"] and f["alias"] != f["name"] and f["name"] in w:
+            res = "both" if f["alias"] in w else (res or "only")
+    return res
+
+
 def agree(case, o):
     """C09 oracle on one input: same accept/reject, same variant tree, same re-serialised JSON value"""
     p, f = o["pydantic"], o["fallback"]
-    mode = case.get("mode", "")
-    tag = "alias-and-attribute-name-members" if mode == "attr-both" else None
+    tag = "alias-and-attribute-name-members" if attr_name_members(case) == "both" else None
     if p.get("ok") != f.get("ok"):
         who = "pydantic" if p.get("ok") else "fallback"
         return (tag or "accepted-by-one-backend",
